@@ -298,10 +298,83 @@ Section Full.
   Qed.
 End Full.
 
-(** ** the request  query Q(defs) { f(args) }  (site "field") *)
-Section FieldSite.
+Lemma in_vardefs def : forall ds i, In def ds -> exists j, In (tr_vardef j def) (tr_vardefs i ds).
+Proof.
+  induction ds as [|d r IH]; intros i []; cbn [tr_vardefs].
+  - subst. eexists. left. reflexivity.
+  - destruct (IH (i + 1)%N H) as [j Hj]. exists j. right. exact Hj.
+Qed.
+
+Lemma tr_args_in a0 : forall (args : list (name * lit)) i, In a0 (tr_args i args) ->
+  exists n l, In (n, l) args /\ a0 = {| Ast.a_name := n; Ast.a_pos := Ast.a_pos a0; Ast.a_value := tr_lit l |}.
+Proof.
+  induction args as [|[k x] r IH]; intros i H; cbn [tr_args] in H; [contradiction|].
+  destruct H as [<-|H].
+  - exists k, x. split; [left; reflexivity|reflexivity].
+  - destruct (IH _ H) as (n & l & Hin & Eq). exists n, l. split; [right; exact Hin|exact Eq].
+Qed.
+
+(** ** generic facts about value trees *)
+Lemma flat_map_flat_map {A B C} (f : B -> list C) (g : A -> list B) l :
+  flat_map f (flat_map g l) = flat_map (fun x => flat_map f (g x)) l.
+Proof. induction l as [|x r IH]; [reflexivity|]. cbn [flat_map]. rewrite flat_map_app, IH. reflexivity. Qed.
+
+(** a function of nodes that only speaks about value nodes and fragment spreads *)
+Definition quiet {B} (h : Inspect.node -> list B) : Prop :=
+  forall n, match n with
+            | Inspect.NValue _ => True
+            | Inspect.NSel (Ast.SSpread _ _ _ _) => True
+            | _ => h n = []
+            end.
+
+Lemma quiet_var_fe vars : quiet (ProofsVarsOrder.var_fe vars).
+Proof. intros n. destruct n; try reflexivity. destruct s; reflexivity || exact I. Qed.
+Lemma quiet_var_fn : quiet ProofsVarsOrder.var_fn.
+Proof. intros n. destruct n; try reflexivity. destruct s; reflexivity || exact I. Qed.
+Lemma quiet_spread : quiet ProofsCycles.spread_name_of.
+Proof. intros n. destruct n; try reflexivity. destruct s; reflexivity || exact I. Qed.
+
+(** no fragment spread inside a value *)
+Lemma value_no_spread : forall v, flat_map ProofsCycles.spread_name_of (InspectProofs.vnodes ProofsVarsOrder.var_g (Inspect.tree_value v)) = [].
+Proof.
+  induction v using AstInd.value_ind'; try reflexivity.
+  - cbn [Inspect.tree_value InspectProofs.vnodes ProofsVarsOrder.var_g flat_map ProofsCycles.spread_name_of app].
+    induction H as [|x l Hx _ IHl]; [reflexivity|]. cbn [map flat_map]. rewrite flat_map_app, Hx, IHl. reflexivity.
+  - cbn [Inspect.tree_value InspectProofs.vnodes ProofsVarsOrder.var_g flat_map ProofsCycles.spread_name_of app].
+    induction H as [|[[n np] x] l Hx _ IHl]; [reflexivity|]. cbn [map flat_map]. rewrite flat_map_app, IHl.
+    cbn [InspectProofs.vnodes ProofsVarsOrder.var_g flat_map ProofsCycles.spread_name_of app Inspect.name_tree].
+    rewrite !app_nil_r. simpl in Hx. exact Hx.
+Qed.
+
+(** the variables a literal mentions are the variable nodes of its (annotated) value tree *)
+Lemma var_fn_value S : forall l sc e d,
+  flat_map ProofsVarsOrder.var_fn (InspectProofs.vnodes ProofsVarsOrder.var_g
+     (Inspect.tree_value (TypeInfoModel.ti_value_in true S sc e d (tr_lit l)))) = lit_vars l.
+Proof.
+  induction l as [n|z|m k|s|b| |n|vs IHl|fs IHf] using lit_ind'; intros sc e d; try reflexivity.
+  - cbn [tr_lit]. rewrite ProofsTypeInfoValues.ti_value_list.
+    cbn [Inspect.tree_value InspectProofs.vnodes ProofsVarsOrder.var_g flat_map ProofsVarsOrder.var_fn app lit_vars].
+    rewrite !map_map. induction IHl as [|x r Hx _ IHr]; [reflexivity|].
+    cbn [map flat_map]. rewrite flat_map_app, Hx, IHr. reflexivity.
+  - cbn [tr_lit]. rewrite ProofsTypeInfoValues.ti_value_object.
+    cbn [Inspect.tree_value InspectProofs.vnodes ProofsVarsOrder.var_g flat_map ProofsVarsOrder.var_fn app lit_vars].
+    rewrite !map_map. induction IHf as [|[k x] r Hx _ IHr]; [reflexivity|].
+    cbn [map flat_map]. rewrite flat_map_app, IHr. f_equal.
+    unfold ProofsTypeInfoValues.object_field. cbn [fst snd].
+    destruct (match TypeInfoModel.object_fields true S e with Some l0 => Ast.assoc k l0 | None => None end);
+      cbn [InspectProofs.vnodes ProofsVarsOrder.var_g flat_map ProofsVarsOrder.var_fn app Inspect.name_tree];
+      rewrite app_nil_r; simpl in Hx; apply Hx.
+Qed.
+
+(** ** the request  query Q(defs) { f(args) }  (site "field", [sf = true]) or
+    query Q(defs) { g @dname(args) }  (a directive site, [sf = false], dname one of flt / skip / include) *)
+Definition dir_names : list name := [ [102; 108; 116]%N; [115; 107; 105; 112]%N; [105; 110; 99; 108; 117; 100; 101]%N ].
+
+Section Site.
   Variable E : env.
   Variable dt : bytes -> option bytes.
+  Variable sf : bool.
+  Variable dname : name.
   Variable argdefs : list (name * in_def).
   Variable defs : list vardef.
   Variable args : list (name * lit).
@@ -310,35 +383,119 @@ Section FieldSite.
   Hypothesis HC : env_closed E = true.
   Hypothesis Hac : forall ad, In ad argdefs -> sty_closed E (in_type (snd ad)) = true.
   Hypothesis HL : leaves_agree E dt.
-  (** Res_ is reserved for the bridge: no variable is declared with it *)
   Hypothesis Hres : forall def, In def defs -> leaf_name (vd_type def) <> n_Res.
+  Hypothesis Hdn : In dname dir_names.
 
-  Let S' := tr_request_schema E true argdefs.
-  Let D := tr_request_doc None defs args.
+  Let S' := tr_request_schema E sf argdefs.
+  Let D := tr_request_doc (if sf then None else Some dname) defs args.
   Let V0 := map (TypeInfoModel.ti_vardef true S' []) (tr_vardefs 0 defs).
   Let D' := tr_argdefs argdefs.
-  Let A' := TypeInfoModel.ti_args true S' (Some D') TypeInfoModel.dflt_not_nil (tr_args 0 args).
-  Let fdef := {| Ast.f_type := Ast.StNamed n_Res; Ast.f_args := D'; Ast.f_req := [] |}.
-  Let sel' := Ast.SField (Some fdef) None [102]%N (pp 4 1) A' [] None.
+  Let dnil := if sf then TypeInfoModel.dflt_not_nil else TypeInfoModel.dflt_is_value.
+  Let A' := TypeInfoModel.ti_args true S' (Some D') dnil (tr_args 0 args).
+  Let fdef (a : list (Ast.name * Ast.input_def)) := {| Ast.f_type := Ast.StNamed n_Res; Ast.f_args := a; Ast.f_req := [] |}.
+  Let dir' := {| Ast.d_name := dname; Ast.d_npos := pp 4 4; Ast.d_at := pp 4 3; Ast.d_args := A' |}.
+  Let sel' := if sf then Ast.SField (Some (fdef D')) None [102]%N (pp 4 1) A' [] None
+              else Ast.SField (Some (fdef [])) None [103]%N (pp 4 1) [] [dir'] None.
   Let d' := Ast.DOp (Some ([113; 117; 101; 114; 121]%N, pp 1 1)) (Some ([81]%N, pp 1 7)) V0 []
                     (Ast.SelSet (Some n_Query) [sel'] (pp 4 0)).
 
   Lemma raw_body_query :
-    Ast.raw_body S' n_Query = Some (Ast.TObject [ ([102]%N, fdef); ([103]%N, {| Ast.f_type := Ast.StNamed n_Res; Ast.f_args := []; Ast.f_req := [] |}) ] []).
+    Ast.raw_body S' n_Query = Some (Ast.TObject [ ([102]%N, fdef (if sf then D' else [])); ([103]%N, fdef []) ] []).
   Proof.
-    unfold Ast.raw_body. rewrite (raw_type_req E true argdefs). unfold ahas in Hq. destruct (aget n_Query E); [discriminate|].
+    unfold Ast.raw_body. rewrite (raw_type_req E sf argdefs). unfold ahas in Hq. destruct (aget n_Query E); [discriminate|].
     unfold tr_request_schema. cbn [Ast.s_types]. rewrite skipn_app, Nat.sub_diag, skipn_all. reflexivity.
+  Qed.
+
+  Lemma dir_lookup : Ast.assoc dname (Ast.s_directives S') =
+    Some {| Ast.dd_args := if sf then [] else D'; Ast.dd_locs := [Ast.LField] |}.
+  Proof.
+    unfold S', tr_request_schema. cbn [Ast.s_directives].
+    destruct Hdn as [<-|[<-|[<-|[]]]]; reflexivity.
   Qed.
 
   Lemma annotated : TypeInfoPure.pti_doc true S' [] D = [d'].
   Proof.
-    unfold D, tr_request_doc, TypeInfoPure.pti_doc.
-    cbn [map TypeInfoPure.pti_def TypeInfoPure.pti_ss TypeInfoPure.pti_sel TypeInfoPure.op_scope].
-    change (Ast.name_eqb [113; 117; 101; 114; 121]%N TypeInfoModel.n_query) with true. cbn iota.
-    change (Ast.s_query S') with n_Query.
-    unfold TypeInfoPure.field_args, TypeInfoModel.field_of_scope. rewrite raw_body_query. reflexivity.
+    pose proof raw_body_query as RQ. pose proof dir_lookup as DL.
+    unfold D, d', sel', dir', A', dnil, tr_request_doc, TypeInfoPure.pti_doc. destruct sf;
+    cbn [map TypeInfoPure.pti_def TypeInfoPure.pti_ss TypeInfoPure.pti_sel TypeInfoPure.op_scope];
+    change (Ast.name_eqb [113; 117; 101; 114; 121]%N TypeInfoModel.n_query) with true; cbn iota;
+    change (Ast.s_query S') with n_Query;
+    unfold TypeInfoPure.field_args, TypeInfoModel.field_of_scope; rewrite RQ.
+    - reflexivity.
+    - cbn [Ast.get_field Ast.assoc Ast.name_eqb]. unfold TypeInfoModel.ti_dir. cbn [Ast.d_name Ast.d_npos Ast.d_at Ast.d_args].
+      rewrite DL. reflexivity.
   Qed.
 
+  (** *** where the annotated arguments sit in the annotated document *)
+  Lemma vals_args v : In v (ProofsValues.arg_vals A') -> In v (ProofsValues.def_vals d').
+  Proof.
+    intro H. unfold d', sel'. cbn [ProofsValues.def_vals]. apply in_or_app. right. apply in_or_app. right.
+    destruct sf; cbn [ProofsValues.vals_ss flat_map]; rewrite app_nil_r.
+    - apply in_or_app. left. exact H.
+    - apply in_or_app. right. apply in_or_app. left. unfold ProofsValues.dir_vals. cbn [flat_map Ast.d_args dir']. rewrite app_nil_r. exact H.
+  Qed.
+
+  Lemma vals_defaults v : In v (flat_map ProofsValues.vardef_vals V0) -> In v (ProofsValues.def_vals d').
+  Proof. intro H. unfold d'. cbn [ProofsValues.def_vals]. apply in_or_app. left. exact H. Qed.
+
+  Lemma body_flat {B} (h : Inspect.node -> list B) : quiet h ->
+    flat_map h (ProofsVarsOrder.body0 d') =
+    flat_map h (flat_map (fun a => InspectProofs.vnodes ProofsVarsOrder.var_g (Inspect.tree_arg a)) A').
+  Proof.
+    intro Q.
+    assert (Vd : forall vs, flat_map h (flat_map (InspectProofs.vnodes ProofsVarsOrder.var_g) (map Inspect.tree_vardef vs)) = []).
+    { induction vs as [|v r IHr]; [reflexivity|]. cbn [map flat_map InspectProofs.vnodes Inspect.tree_vardef ProofsVarsOrder.var_g app].
+      rewrite IHr. pose proof (Q (Inspect.NVarDef v)) as X. cbn in X. rewrite X. reflexivity. }
+    assert (Ar : forall l, flat_map h (flat_map (InspectProofs.vnodes ProofsVarsOrder.var_g) (map Inspect.tree_arg l))
+                           = flat_map h (flat_map (fun a => InspectProofs.vnodes ProofsVarsOrder.var_g (Inspect.tree_arg a)) l)).
+    { induction l as [|x r IHr]; [reflexivity|]. cbn [map flat_map]. rewrite !flat_map_app, IHr. reflexivity. }
+    unfold ProofsVarsOrder.body0, d', sel', dir'.
+    cbn [Inspect.tree_def InspectProofs.vnodes ProofsVarsOrder.var_g Inspect.opt_tree app map flat_map].
+    rewrite (Q (Inspect.NDef _)). cbn [app]. rewrite (Q (Inspect.NOpType _ _)). cbn [app].
+    cbn [Inspect.name_tree InspectProofs.vnodes flat_map app]. rewrite (Q (Inspect.NName _ _)). cbn [app].
+    rewrite !flat_map_app, Vd. cbn [app flat_map Inspect.tree_ss InspectProofs.vnodes ProofsVarsOrder.var_g map].
+    rewrite (Q (Inspect.NSelSet _)). cbn [app]. rewrite !app_nil_r.
+    destruct sf; cbn [Inspect.tree_sel InspectProofs.vnodes ProofsVarsOrder.var_g Inspect.opt_tree app map flat_map Inspect.name_tree].
+    - pose proof (Q (Inspect.NSel (Ast.SField (Some (fdef D')) None [102]%N (pp 4 1) A' [] None))) as X1. cbn in X1. rewrite X1. cbn [app].
+      rewrite (Q (Inspect.NName _ _)). cbn [app]. rewrite !app_nil_r. apply Ar.
+    - match goal with |- h (Inspect.NSel ?x) ++ _ = _ => pose proof (Q (Inspect.NSel x)) as X1; cbn in X1 end.
+      rewrite X1. cbn [app]. rewrite (Q (Inspect.NName _ _)). cbn [app]. rewrite app_nil_r.
+      cbn [Inspect.tree_dir InspectProofs.vnodes ProofsVarsOrder.var_g flat_map app Inspect.name_tree Ast.d_name Ast.d_npos Ast.d_args].
+      rewrite (Q (Inspect.NDirective _)). cbn [app]. rewrite (Q (Inspect.NName _ _)). cbn [app].
+      rewrite ?app_nil_r. apply Ar.
+  Qed.
+
+  Lemma args_rule_node :
+    ValidatorModel.rule_arguments ValidatorModel.repaired ValidatorModel.id_order S' [d'] = Ast.Done [] ->
+    exists p, fst (ValidatorModel.args_node ValidatorModel.repaired ValidatorModel.id_order [] A' D' p) = [].
+  Proof.
+    intro Ra. pose proof dir_lookup as DL.
+    unfold ValidatorModel.rule_arguments in Ra.
+    rewrite (InspectProofs.inspect_acc _ (ProofsArguments.arg_f ValidatorModel.id_order S') (ProofsArguments.arg_g S') _
+               (ProofsArguments.arguments_enter_eq ValidatorModel.id_order S')) in Ra.
+    cbn [app] in Ra.
+    assert (Ra' : flat_map (ProofsArguments.arg_f ValidatorModel.id_order S')
+                    (InspectProofs.vnodes (ProofsArguments.arg_g S') (Inspect.tree_doc [d'])) = []) by congruence.
+    clear Ra. rename Ra' into Ra. rewrite InspectProofs.flat_map_nil_iff in Ra.
+    assert (Sub : forall n0, In n0 (InspectProofs.vnodes (ProofsArguments.arg_g S') (Inspect.tree_ss (Ast.SelSet (Some n_Query) [sel'] (pp 4 0)))) ->
+                  In n0 (InspectProofs.vnodes (ProofsArguments.arg_g S') (Inspect.tree_doc [d']))).
+    { intros n0 H0. unfold d'.
+      cbn [Inspect.tree_doc map InspectProofs.vnodes ProofsArguments.arg_g flat_map Inspect.tree_def app Inspect.opt_tree].
+      right. right. right. rewrite app_nil_r. apply in_or_app. right. apply in_flat_map.
+      exists (Inspect.tree_ss (Ast.SelSet (Some n_Query) [sel'] (pp 4 0))). split; [|exact H0].
+      apply in_or_app. right. left. reflexivity. }
+    unfold sel', dir' in Sub. unfold D'. destruct sf.
+    - exists (pp 4 1).
+      match type of Sub with forall n0, In n0 (InspectProofs.vnodes _ (Inspect.tree_ss (Ast.SelSet _ [?x] _))) -> _ =>
+        specialize (Ra (Inspect.NSel x) (Sub _ ltac:(cbn [Inspect.tree_ss map InspectProofs.vnodes ProofsArguments.arg_g flat_map app]; right; left; reflexivity))) end.
+      cbn [ProofsArguments.arg_f] in Ra.
+      rewrite (ProofsArguments.args_node_eq ValidatorModel.id_order). cbn [fst app]. exact Ra.
+    - exists (pp 4 3).
+      match type of Sub with forall n0, In n0 (InspectProofs.vnodes _ (Inspect.tree_ss (Ast.SelSet _ [Ast.SField _ _ _ _ _ [?d] _] _))) -> _ =>
+        specialize (Ra (Inspect.NDirective d) (Sub _ ltac:(cbn [Inspect.tree_ss map InspectProofs.vnodes ProofsArguments.arg_g flat_map app Inspect.tree_sel Inspect.opt_tree Inspect.name_tree Inspect.tree_dir]; right; right; right; left; reflexivity))) end.
+      cbn [ProofsArguments.arg_f Ast.d_name Ast.d_args Ast.d_at] in Ra. rewrite DL in Ra. cbn [Ast.dd_args] in Ra.
+      rewrite (ProofsArguments.args_node_eq ValidatorModel.id_order). cbn [fst app]. exact Ra.
+  Qed.
   Lemma in_tr_args n l : forall (l0 : list (name * lit)) i, In (n, l) l0 ->
     exists p, In {| Ast.a_name := n; Ast.a_pos := p; Ast.a_value := tr_lit l |} (tr_args i l0).
   Proof.
@@ -370,7 +527,7 @@ Section FieldSite.
       destruct (TypeInfoModel.schema_type S' [] (tr_ty (vd_type d) (pp 2 (10 + i)))) as [x|] eqn:St; [|discriminate].
       apply schema_type_shape in St. subst x. rewrite unwrapped_tr in H2.
       unfold ahas in Ah. destruct (aget (leaf_name (vd_type d)) E) eqn:G; [discriminate|].
-      destruct (raw_body_out E true argdefs _ G) as [R | [[fs R] | [Eq R]]]; fold S' in R.
+      destruct (raw_body_out E sf argdefs _ G) as [R | [[fs R] | [Eq R]]]; fold S' in R.
       - rewrite R in H2. discriminate.
       - rewrite R in H2. discriminate.
       - apply (Hn d (or_introl eq_refl) Eq). }
@@ -379,31 +536,12 @@ Section FieldSite.
     - cbn [map dups]. destruct (Ast.mem (vd_name d) seen); [discriminate|]. exact Dp.
   Qed.
 
-  (** from the verdict of the whole pipeline ([validate_model_memo] on the translated schema and
-      document) to the two validateVariables conjuncts about the definitions; the chain is
-      memo -> plain ([validate_memo_iff_parsed]) -> every rule silent on the annotated document
-      ([validate_model_nil], [all_rules_nil], [annotated]) -> [rule_variables_fine] ->
-      [vardefs_loop_inv] *)
-  Theorem field_site_variable_definitions :
-    ValidatorModel.validate_model_memo ValidatorModel.repaired ValidatorModel.id_order S' [] D = Ast.Done [] ->
-    has_dup (map vd_name defs) = false /\
-    (forall def, In def defs -> type_known E (vd_type def) = true).
-  Proof.
-    intro M.
-    assert (Ord : ProofsCommon.order_ok ValidatorModel.id_order) by (intros A0 l; apply Permutation.Permutation_refl).
-    assert (Pd : MemoEquiv.doc_field_positions_distinct D).
-    { unfold MemoEquiv.doc_field_positions_distinct. simpl. repeat constructor; simpl; tauto. }
-    apply (MemoEquiv.validate_memo_iff_parsed _ _ _ _ Ord Pd) in M.
-    apply ValidatorProofs.validate_model_nil in M. change (ValidatorModel.q_unwrap_obj ValidatorModel.repaired) with true in M.
-    rewrite annotated in M. apply ValidatorProofs.all_rules_nil in M as (_ & _ & Ra & _ & Rv & _ & Rx).
-    pose proof (proj1 (ProofsOrder.rule_variables_fine S' [d'] _ Ord) Rx d' (or_introl eq_refl)) as (X1 & X2 & _ & _).
-    destruct (vardefs_loop_inv defs 0%N [] Hres X1) as [Hk Dn]. rewrite dups_nil in Dn.
-    split; [exact Dn|exact Hk].
-  Qed.
 
-  (** the values rule, node by node: silent on an annotated value at a closed type => C05's
-      [validate_coercion] *)
-  Theorem annotated_value_validates l t dd : sty_closed E t = true ->
+  Lemma dnil_loc d : dnil (Ast.in_default (tr_indef d)) = arg_loc_default sf d.
+  Proof. unfold dnil, tr_indef, arg_loc_default. cbn [Ast.in_default]. destruct sf; destruct (in_default d) as [g|]; try destruct g; reflexivity. Qed.
+
+  (** the values rule, node by node *)
+  Lemma annotated_value_validates l t dd : sty_closed E t = true ->
     ProofsValues.val_f ValidatorModel.id_order S' (Inspect.NValue (TypeInfoModel.ti_value true S' (Some (tr_sty t)) dd (tr_lit l))) = [] ->
     validate_coercion E dt l t true = true.
   Proof.
@@ -412,8 +550,137 @@ Section FieldSite.
     rewrite (ProofsValues.coercion_blind ValidatorModel.id_order S') in Vf.
     destruct (Ast.is_var (tr_lit l)) eqn:Iv.
     - destruct l; try discriminate. rewrite vc_eq. reflexivity.
-    - rewrite <- (bridge_closed E dt S' (fun n td G => raw_body_in E true argdefs n td G) HC HL l t true C).
+    - rewrite <- (bridge_closed E dt S' (fun n td G => raw_body_in E sf argdefs n td G) HC HL l t true C).
       destruct (ProofsValues.coercion_total ValidatorModel.id_order S' (tr_lit l) (tr_sty t) true) as [errs Ce].
       rewrite Ce in Vf |- *. cbn [ProofsValues.vr_errs] in Vf. subst errs. reflexivity.
   Qed.
-End FieldSite.
+
+  (** the annotated argument of (n, l) *)
+  Lemma annotated_arg n l d : In (n, l) args -> aget n argdefs = Some d ->
+    exists p, In {| Ast.a_name := n; Ast.a_pos := p;
+                    Ast.a_value := TypeInfoModel.ti_value true S' (Some (tr_sty (in_type d))) (arg_loc_default sf d) (tr_lit l) |} A'.
+  Proof.
+    intros Hin G. destruct (in_tr_args n l args 0%N Hin) as [p Hp]. exists p.
+    unfold A'. rewrite ProofsTypeInfoValues.ti_args_spec. apply in_map_iff.
+    eexists. split; [|exact Hp]. cbn [Ast.a_name Ast.a_pos Ast.a_value].
+    unfold D'. rewrite assoc_tr_argdefs, G. cbn [option_map]. rewrite dnil_loc. reflexivity.
+  Qed.
+
+  Theorem site_accepts_implies_static_ok :
+    ValidatorModel.validate_model_memo ValidatorModel.repaired ValidatorModel.id_order S' [] D = Ast.Done [] ->
+    static_ok all_fixed E dt sf argdefs defs args = true.
+  Proof.
+    intro M.
+    assert (Ord : ProofsCommon.order_ok ValidatorModel.id_order) by (intros A0 l; apply Permutation.Permutation_refl).
+    assert (Pd : MemoEquiv.doc_field_positions_distinct D).
+    { unfold MemoEquiv.doc_field_positions_distinct, D. destruct sf; simpl; repeat constructor; simpl; tauto. }
+    apply (MemoEquiv.validate_memo_iff_parsed _ _ _ _ Ord Pd) in M.
+    apply ValidatorProofs.validate_model_nil in M. change (ValidatorModel.q_unwrap_obj ValidatorModel.repaired) with true in M.
+    rewrite annotated in M. apply ValidatorProofs.all_rules_nil in M as (_ & _ & Ra & _ & Rv & _ & Rx).
+    (* validateVariables *)
+    pose proof (proj1 (ProofsOrder.rule_variables_fine S' [d'] _ Ord) Rx d' (or_introl eq_refl)) as (X1 & X2 & _ & X4).
+    destruct (vardefs_loop_inv defs 0%N [] Hres X1) as [Hk Dn]. rewrite dups_nil in Dn.
+    (* validateArguments *)
+    destruct (args_rule_node Ra) as [p Node].
+    assert (Names : map Ast.a_name A' = map fst args).
+    { unfold A'. rewrite ProofsArguments.ti_args_names. apply a_names_tr. }
+    destruct (node_conjuncts argdefs args A' p Names Node) as (N1 & N2 & N3).
+    (* validateValues *)
+    rewrite ProofsValues.rule_values_eq in Rv.
+    assert (Rv' : flat_map (fun v => ProofsValues.val_f ValidatorModel.id_order S' (Inspect.NValue v)) (flat_map ProofsValues.def_vals [d']) = []) by congruence.
+    rewrite InspectProofs.flat_map_nil_iff in Rv'.
+    assert (Vals : forall v, In v (ProofsValues.def_vals d') -> ProofsValues.val_f ValidatorModel.id_order S' (Inspect.NValue v) = []).
+    { intros v Hv. apply Rv'. cbn [flat_map]. rewrite app_nil_r. exact Hv. }
+    assert (ArgOk : forall n l d, In (n, l) args -> aget n argdefs = Some d -> validate_coercion E dt l (in_type d) true = true).
+    { intros n l d Hin G. destruct (annotated_arg n l d Hin G) as [q Hq'].
+      apply (annotated_value_validates l (in_type d) (arg_loc_default sf d)).
+      - apply Hac with (ad := (n, d)). apply aget_In. exact G.
+      - apply Vals. apply vals_args. unfold ProofsValues.arg_vals.
+        apply (in_map Ast.a_value) in Hq'. exact Hq'. }
+    (* usages *)
+    pose proof (body_flat (ProofsVarsOrder.var_fe V0) (quiet_var_fe V0)) as Bf. rewrite X2 in Bf. symmetry in Bf.
+    rewrite flat_map_flat_map, InspectProofs.flat_map_nil_iff in Bf.
+    rewrite static_ok_split. repeat (apply andb_true_iff; split).
+    - apply forallb_forall. exact N1.
+    - apply negb_true_iff. exact N2.
+    - apply forallb_forall. intros ad Hin.
+        destruct (is_nonnull (in_type (snd ad)) && match in_default (snd ad) with None => true | Some _ => false end) eqn:Rq; [|reflexivity].
+        rewrite (N3 ad Hin Rq). apply orb_true_r.
+    - apply forallb_forall. intros [n l] Hin. pose proof (N1 _ Hin) as Ha.
+        change (ahas n argdefs = true) in Ha. unfold ahas in Ha. cbn [fst snd].
+        destruct (aget n argdefs) as [d|] eqn:G; [|discriminate]. eapply ArgOk; eauto.
+    - apply forallb_forall. intros def Hin. destruct (vd_default def) as [dflt|] eqn:Dd; [|reflexivity].
+        rewrite (Hk def Hin). cbn [andb].
+        apply (annotated_value_validates dflt (vd_type def) false).
+        * rewrite <- type_known_closed. apply Hk. exact Hin.
+        * apply Vals. apply vals_defaults. unfold V0. 
+          destruct (in_vardefs def defs 0%N Hin) as [j Hj].
+          apply in_flat_map. exists (TypeInfoModel.ti_vardef true S' [] (tr_vardef j def)). split; [apply in_map; exact Hj|].
+          unfold ProofsValues.vardef_vals, TypeInfoModel.ti_vardef, tr_vardef. cbn [Ast.vd_default Ast.vd_type].
+          rewrite Dd. cbn [option_map]. rewrite (schema_type_req E sf argdefs _ _ (Hk def Hin)). right. left. reflexivity.
+    - apply negb_true_iff. exact Dn.
+    - apply forallb_forall. exact Hk.
+    - (* variable usages *)
+      apply forallb_forall. intros [n l] Hin. pose proof (N1 _ Hin) as Ha.
+      change (ahas n argdefs = true) in Ha. unfold ahas in Ha. cbn [fst snd].
+      destruct (aget n argdefs) as [d|] eqn:G; [|discriminate].
+      destruct (annotated_arg n l d Hin G) as [q Hq'].
+      apply (usage_bridge E dt sf argdefs defs Hk l (in_type d) true (arg_loc_default sf d) (ArgOk n l d Hin G)).
+      specialize (Bf _ Hq'). unfold Inspect.tree_arg in Bf.
+      cbn [Ast.a_name Ast.a_pos Ast.a_value InspectProofs.vnodes ProofsVarsOrder.var_g flat_map ProofsVarsOrder.var_fe app Inspect.name_tree] in Bf.
+      rewrite app_nil_r in Bf. unfold TypeInfoModel.ti_value in Bf.
+      rewrite (ProofsTypeInfoValues.vars_value_errs true S' V0) in Bf. exact Bf.
+    - (* every variable is used *)
+      apply forallb_forall. intros def Hin.
+      destruct (in_vardefs def defs 0%N Hin) as [j Hj].
+      specialize (X4 (TypeInfoModel.ti_vardef true S' [] (tr_vardef j def)) (in_map _ _ _ Hj)).
+      assert (NoReach : forall x, ~ ProofsVarsOrder.reached [d'] d' x).
+      { assert (Sp : ProofsVarsOrder.spreads (ProofsVarsOrder.body0 d') = []).
+        { unfold ProofsVarsOrder.spreads. rewrite (body_flat _ quiet_spread), flat_map_flat_map.
+          apply InspectProofs.flat_map_nil_iff. intros a _.
+          unfold Inspect.tree_arg. cbn [InspectProofs.vnodes ProofsVarsOrder.var_g flat_map ProofsCycles.spread_name_of app Inspect.name_tree].
+          rewrite app_nil_r. apply value_no_spread. }
+        intros x R. induction R as [x Hx|x y _ IH _]; [rewrite Sp in Hx; exact Hx|exact IH]. }
+      destruct X4 as [Used|[x [R _]]]; [|exfalso; exact (NoReach x R)].
+      cbn [TypeInfoModel.ti_vardef tr_vardef Ast.vd_name] in Used.
+      rewrite (body_flat _ quiet_var_fn), flat_map_flat_map in Used. apply in_flat_map in Used as (a' & Ha' & Hu).
+      unfold A' in Ha'. rewrite ProofsTypeInfoValues.ti_args_spec in Ha'. apply in_map_iff in Ha' as (a0 & <- & Ha0).
+      destruct (tr_args_in a0 args 0%N Ha0) as (n & l & Hnl & Eq0). rewrite Eq0 in Hu.
+      apply existsb_exists. exists (n, l). split; [exact Hnl|]. cbn [snd].
+      unfold Inspect.tree_arg in Hu. cbn [Ast.a_name Ast.a_pos Ast.a_value InspectProofs.vnodes ProofsVarsOrder.var_g flat_map ProofsVarsOrder.var_fn app Inspect.name_tree] in Hu.
+      rewrite app_nil_r in Hu.
+      assert (Lv : In (vd_name def) (lit_vars l)).
+      { destruct (Ast.assoc n D'); unfold TypeInfoModel.ti_value in Hu; rewrite var_fn_value in Hu; exact Hu. }
+      apply existsb_exists. exists (vd_name def). split; [exact Lv|apply bytes_eqb_refl].
+  Qed.
+End Site.
+
+(** ** C05_C04_accepts_implies_static_ok *)
+Theorem accepts_implies_static_ok E dt sf dname argdefs defs args :
+  ahas n_Query E = false -> ahas n_Res E = false ->
+  env_closed E = true ->
+  (forall ad, In ad argdefs -> sty_closed E (in_type (snd ad)) = true) ->
+  leaves_agree E dt ->
+  (forall def, In def defs -> leaf_name (vd_type def) <> n_Res) ->
+  In dname dir_names ->
+  c04_document_accepts E sf (if sf then None else Some dname) argdefs defs args = true ->
+  static_ok all_fixed E dt sf argdefs defs args = true.
+Proof.
+  intros Hq Hr HC Hac HL Hres Hdn Acc.
+  apply (site_accepts_implies_static_ok E dt sf dname argdefs defs args); auto.
+  unfold c04_document_accepts in Acc.
+  destruct (ValidatorModel.validate_model_memo _ _ _ _ _) as [[|e es]| |]; try discriminate. reflexivity.
+Qed.
+
+Corollary accepts_implies_static_ok_bridgeable E dt sf dname argdefs defs args :
+  ahas n_Query E = false -> ahas n_Res E = false ->
+  env_closed E = true ->
+  (forall ad, In ad argdefs -> sty_closed E (in_type (snd ad)) = true) ->
+  bridgeable E = true -> (no_float E = true \/ float_leaves_agree dt) ->
+  (forall def, In def defs -> leaf_name (vd_type def) <> n_Res) ->
+  In dname dir_names ->
+  c04_document_accepts E sf (if sf then None else Some dname) argdefs defs args = true ->
+  static_ok all_fixed E dt sf argdefs defs args = true.
+Proof.
+  intros Hq Hr HC Hac HB HF. apply accepts_implies_static_ok; auto. apply leaves_agree_bridgeable; auto.
+Qed.
